@@ -87,7 +87,8 @@ def _verify_worker(args):
                        sha256=rep.extracted.sha256, dropped=rep.extracted.dropped)
         if rep.undecided is None:
             for label, d in rep.named().items():
-                o = {'id': '%s:%s' % (cname, label), 'label': label, 'kind': d['kind'],
+                o = {'id': '%s:%s' % (cname, label), 'label': label, 'kind': d['kind'], 'crosscheck': d.get('crosscheck'),
+                     'disagreement': d.get('disagreement', False),
                      'result': d['result'], 'instances': d['instances'], 'ms': d['ms'],
                      'solver': sorted(d['solver']), 'line': d['line']}
                 if d['cex'] is not None:
